@@ -8,60 +8,90 @@ section text
 variable {α : Type}
 
 /-- **text round trip**: every image with `r ≥ 1` rows of `c ≥ 1` columns — single rows, single
-columns and 1×1 included — saved (with or without a one-line header) and loaded is the same image:
-same shape `(r, c)`, same values in the same order.  Assumes only that the number printer is
-inverted by the parser and prints no delimiter, comment or newline character. -/
-theorem text_roundtrip (fmt : α → Str) (parse : Str → Option α) (hc : Clean fmt parse)
-    (header : Option Str) (hh : ∀ h, header = some h → '\n' ∉ h)
+columns and 1×1 included — saved (with any header, also a multi-line one or one containing
+delimiter and comment characters) and loaded is the same image: same shape `(r, c)`, same values in
+the same order.  Assumes only that the number printer is inverted by the converter and prints no
+delimiter, comment, newline or space character (`Clean`; for `'%.18g'` and `float` this is the
+trusted float64 ↔ decimal round trip), and that the header holds no carriage return (a `\r` is a
+line break for the reader but not for the writer: see the `example` below). -/
+theorem text_roundtrip (fmt : α → Str) (conv : Str → α) (hc : Clean fmt conv)
+    (header : Str) (hh : '\r' ∉ header)
     (img : List (List α)) (c : Nat) (hr : img ≠ []) (hcpos : 0 < c) (hcols : ∀ row ∈ img, row.length = c) :
-    loadText parse 2 (saveText fmt header img) = some ([img.length, c], img.flatten) := by
-  apply load_of_table parse _ img c hr hcols
-  apply parse_saved fmt parse hc header hh img
+    loadText conv 2 (saveText fmt header img) = some ([img.length, c], img.flatten) := by
+  apply load_of_rows conv fmt hc.roundtrip _ img c hr hcols
+  apply fieldRows_saved fmt conv hc header hh img
   intro row hrow e
   have := hcols row hrow
   rw [e] at this
   simp at this
   omega
 
+/-- **the choice of delimiter never matters**, for every text file whatsoever: two files that differ
+only in which of `,` `;` tab stands at each delimiter position load to the same result — the same
+array, or both raise, and both warn or neither does. -/
+theorem delimiter_choice_irrelevant (conv : Str → α) (ndmin : Nat) (f g : Str) (h : normalise f = normalise g) :
+    loadText conv ndmin f = loadText conv ndmin g ∧ loadWarns f = loadWarns g := by
+  have : loaderLines f = loaderLines g := by
+    rw [← loaderLines_normalise f, ← loaderLines_normalise g, h]
+  simp [loadText, loadFields, loadWarns, this]
+
 /-- **delimiters agree**: a file whose fields are separated by any mixture of `,`, `;` and tab
 loads to the same image as the comma-separated file that `save` writes (namely the image itself) -/
-theorem delimiters_agree (fmt : α → Str) (parse : Str → Option α) (hc : Clean fmt parse)
+theorem delimiters_agree (fmt : α → Str) (conv : Str → α) (hc : Clean fmt conv)
     (seps : List (List Char)) (img : List (List α)) (c : Nat) (hlen : seps.length = img.length)
     (hs : ∀ ss ∈ seps, ∀ s ∈ ss, IsDelim s)
     (hr : img ≠ []) (hcpos : 0 < c) (hcols : ∀ row ∈ img, row.length = c) :
-    loadText parse 2 (saveWith fmt seps img) = loadText parse 2 (saveText fmt none img)
-      ∧ loadText parse 2 (saveWith fmt seps img) = some ([img.length, c], img.flatten) := by
-  have hne : ∀ row ∈ img, row ≠ [] := by
-    intro row hrow e
-    have := hcols row hrow
-    rw [e] at this
-    simp at this
-    omega
-  have h2 := load_of_table parse _ img c hr hcols (parse_saveWith fmt parse hc seps img hlen hs hne)
-  refine ⟨?_, h2⟩
-  rw [h2, text_roundtrip fmt parse hc none (by simp) img c hr hcpos hcols]
+    loadText conv 2 (saveWith fmt seps img) = loadText conv 2 (saveText fmt [] img)
+      ∧ loadText conv 2 (saveWith fmt seps img) = some ([img.length, c], img.flatten) := by
+  have h1 : loadText conv 2 (saveWith fmt seps img) = loadText conv 2 (saveText fmt [] img) :=
+    (delimiter_choice_irrelevant conv 2 _ _ (by
+      rw [normalise_saveWith fmt conv hc seps img hlen hs, ← normalise_saveWith fmt conv hc seps img hlen hs,
+        normalise_idem])).1
+  exact ⟨h1, by rw [h1]; exact text_roundtrip fmt conv hc [] (by simp) img c hr hcpos hcols⟩
 
-/-- regression documentation (fixed by commit 9e652ea): with `genfromtxt`'s default `ndmin = 0`
-a column of three values came back as a row; with `ndmin = 2` every shape is kept -/
-theorem text_column_wrong : shapeRule 0 3 1 = [1, 3] ∧ ∀ r c, shapeRule 2 r c = [r, c] :=
+/-- regression note, not a property theorem: it records what commit 9e652ea repaired.  With
+`genfromtxt`'s default `ndmin = 0` a column of three values came back as a row (first conjunct, an
+evaluation of the shape rule); the second conjunct only restates that `shapeRule 2` keeps a
+two-axis shape, which is what the definition says (near-definitional, kept for the contrast). -/
+theorem text_column_wrong : shapeRule 0 [3, 1] = [1, 3] ∧ ∀ r c, shapeRule 2 [r, c] = [r, c] :=
   ⟨by decide, shapeRule_two⟩
 
-/-- non-vacuity: a printer/parser pair satisfying `Clean`, and a single-column image -/
+/-- non-vacuity: a printer/converter pair satisfying `Clean`, and a single-column image -/
 def fmtB (b : Bool) : Str := if b then ['1'] else ['0']
-def parseB : Str → Option Bool
-  | ['1'] => some true
-  | ['0'] => some false
-  | _ => none
+def convB : Str → Bool
+  | ['1'] => true
+  | _ => false
 
-theorem clean_fmtB : Clean fmtB parseB := ⟨by decide, by decide, by decide⟩
+theorem clean_fmtB : Clean fmtB convB := ⟨by decide, by decide, by decide⟩
 
-example : loadText parseB 2 (saveText fmtB (some "x;#".toList) [[true], [false], [true]])
+example : loadText convB 2 (saveText fmtB "x;#\n1,0".toList [[true], [false], [true]])
     = some ([3, 1], [true, false, true]) :=
-  text_roundtrip fmtB parseB clean_fmtB _ (by decide) _ 1 (by decide) (by decide) (by decide)
+  text_roundtrip fmtB convB clean_fmtB _ (by decide) _ 1 (by decide) (by decide) (by decide)
 
-example : loadText parseB 2 (saveWith fmtB [[';', '\t'], [',', ';']] [[true, false, true], [false, false, true]])
+example : saveText fmtB "x;#\n1,0".toList [[true, false]] = "#x;#\n#1,0\n1,0\n".toList := by decide
+
+example : loadText convB 2 (saveWith fmtB [[';', '\t'], [',', ';']] [[true, false, true], [false, false, true]])
     = some ([2, 3], [true, false, true, false, false, true]) :=
-  (delimiters_agree fmtB parseB clean_fmtB _ _ 3 (by decide) (by simp [IsDelim]) (by decide) (by decide) (by decide)).2
+  (delimiters_agree fmtB convB clean_fmtB _ _ 3 (by decide) (by simp [IsDelim]) (by decide) (by decide) (by decide)).2
+
+example : loadText convB 2 "1;0\r\n0\t1".toList = loadText convB 2 "1,0\r\n0,1".toList :=
+  (delimiter_choice_irrelevant convB 2 _ _ (by decide)).1
+
+/-! the loader model on files `save` never writes (what `genfromtxt` does with them) -/
+
+/-- empty and unparsable fields are fields (the converter makes them NaN), a trailing delimiter is a column -/
+example : loadFields 2 "1,,x\n2;3;\n".toList = some ([2, 3], ["1", "", "x", "2", "3", ""].map String.toList) := by decide
+/-- spaces around a line are stripped, those inside stay in the fields; `\r\n` and `\r` end lines;
+comments are cut; blank and comment-only lines are skipped; the last line needs no terminator -/
+example : loadFields 2 " 1 ; 2 \r\n\n# c\r3\t4 # d\n  \n5,6".toList
+    = some ([3, 2], ["1 ", " 2", "3", "4", "5", "6"].map String.toList) := by decide
+/-- no line with a field: an empty array of shape (0, 1), with a warning -/
+example : loadFields 2 "# only\n\n".toList = some ([0, 1], []) ∧ loadWarns "# only\n\n".toList = true := by decide
+/-- a row with another number of fields than the first: `ValueError` -/
+example : loadFields 2 "1,2\n3\n".toList = none := by decide
+/-- a carriage return in the header starts a line the writer did not prefix: the image grows a row -/
+example : loadText convB 2 (saveText fmtB "a\r1".toList [[true], [false]]) = some ([3, 1], [true, true, false]) := by
+  decide
 
 end text
 
